@@ -124,6 +124,10 @@ def judge(ctx, case):
             return
     r = rc.family_complete([tuple(t) for t in case["terms"]], has_intercept(case), frame)
     indep, same, rx, rr, rxr = rc.span_report(x, r)
+    if rr != rc.model_dim([tuple(t) for t in case["terms"]], has_intercept(case), frame):
+        # the reference coding itself does not reach the dimension the family has on data in general position
+        ctx.classes["unjudged:data_not_in_general_position"] += 1
+        return
     terms = list(dm.common.terms) if dm.common is not None else []
     if not indep:
         ctx.fail("rank", full, f"{formula!r}: {x.shape[1]} columns of rank {rx} (terms {terms}); model space has dimension {rr}", "deficient")
@@ -175,9 +179,25 @@ def _small_cases():
                        "terms": [list(t) for t in ts]}
 
 
+def _numeric_order_cases():
+    """Interactions of a factor with two numeric variables, the numeric part spelled in every order, with and without
+    the numeric-only term (itself in either order)."""
+    f_terms = [list(p) for p in itertools.permutations(["f", "x", "z"])]
+    g_terms = [None] + [list(p) for p in itertools.permutations(["g", "x", "z"])]
+    n_terms = [None, ["x", "z"], ["z", "x"]]
+    for ft in f_terms:
+        for gt in g_terms:
+            for nt in n_terms:
+                terms = [t for t in (ft, gt, nt) if t is not None]
+                for order in set(itertools.permutations(range(len(terms)))):
+                    for style in ("implicit", "0+"):
+                        yield {"levels": {"f": 2, "g": 3}, "reps": 5, "seed": 2, "catkinds": {}, "intercept": style,
+                               "terms": [terms[i] for i in order]}
+
+
 def _small_worker(ctx, arg):
     shard, n = arg
-    for i, case in enumerate(_small_cases()):
+    for i, case in enumerate(itertools.chain(_small_cases(), _numeric_order_cases())):
         if i % n == shard:
             judge(ctx, case)
 
@@ -245,5 +265,6 @@ def run(ctx):
     ctx.parallel(_fam_worker, [masks[k::nchunk] for k in range(nchunk)])
     ctx.parallel(_small_worker, [(k, ns) for k in range(ns)])
     ctx.exhaustive["families of <= 2 terms over f g h x, every term and factor order"] = {"complete": True}
+    ctx.exhaustive["f:x:z (+ g:x:z) (+ x:z) with the numeric part spelled in every order, every term order"] = {"complete": True}
     per = 60 if quick else 1500
     ctx.parallel(_mixed_worker, [(k, per, 3 if (quick or k % 2) else 5) for k in range(ns)])
